@@ -547,6 +547,33 @@ func oracleHoldEndsOnce(r *EngRun) []explore.Violation {
 	return nil
 }
 
+// oracleRenewedAtTick: scenarios "renew-vs-expiry-tick*": the hold's owner renews it (update, or re-entrant lock)
+// in the very tick in which it is due. Either the hold had already ended (the request is refused or takes the key
+// afresh) or the renewal was accepted: then the hold must live for the new period, counted from the renewal.
+func oracleRenewedAtTick(r *EngRun) []explore.Violation {
+	if !strings.HasPrefix(r.Spec.Name, "renew-vs-expiry-tick") {
+		return nil
+	}
+	var renewedAt, endedAt int64 = -1, -1
+	fresh := false
+	for _, e := range r.Events {
+		if e.Req == 9 && e.Result == 9 && endedAt < 0 {
+			endedAt = e.T // EXPRIED under the first request: the old terms ended the hold
+		}
+		if e.Req == 1 && e.Cmd == 1 && (e.Result == 5 || e.Result == 0) && renewedAt < 0 {
+			renewedAt = e.T
+			fresh = e.Result == 0 && e.LRCount <= 1 && endedAt >= 0 && endedAt <= e.T
+		}
+		if e.Req == 1 && e.Result == 9 && renewedAt >= 0 && !fresh && e.T-renewedAt < 10*sec {
+			return []explore.Violation{{Sig: "C06:expried/renewed-on-the-deadline-tick", Msg: fmt.Sprintf("the renewal (10 s) was accepted at %d ms and the hold was ended by time %d ms later: %s", renewedAt/ms, (e.T-renewedAt)/ms, r.Trace())}}
+		}
+	}
+	if renewedAt >= 0 && endedAt > renewedAt && !fresh {
+		return []explore.Violation{{Sig: "C06:expried/renewed-on-the-deadline-tick", Msg: fmt.Sprintf("the renewal (10 s) was accepted at %d ms, yet the hold was ended under its old terms %d ms later: %s", renewedAt/ms, (endedAt-renewedAt)/ms, r.Trace())}}
+	}
+	return nil
+}
+
 func init() {
 	enumCheck("C05", "exploration",
 		func(q bool) []*EnumPlan {
@@ -584,11 +611,16 @@ func init() {
 					Threads: [][]Step{{At(3000 * ms), C(U(1, 1, 1))}}, Unlock: ul},
 				{Name: "unlock-vs-expiry-tick-waiter", Cfg: cfg, Fine: true, Setup: []Step{C(L(9, 1, 1, 0, 1, 0, 0)), C(L(8, 1, 2, 9, 10, 0, 0))},
 					Threads: [][]Step{{At(3000 * ms), C(U(1, 1, 1))}}, Unlock: ul},
+				// the owner renews the hold (update / re-entrant lock, 10 s) in the very tick in which it is due
+				{Name: "renew-vs-expiry-tick-update", Cfg: cfg, Fine: true, Setup: []Step{C(L(9, 1, 1, 0, 1, 0, 2))},
+					Threads: [][]Step{{At(3000 * ms), C(withF(L(1, 1, 1, 0, 10, 0, 2), 0x02))}}, DrainTo: 16 * sec},
+				{Name: "renew-vs-expiry-tick-relock", Cfg: cfg, Fine: true, Setup: []Step{C(L(9, 1, 1, 0, 1, 0, 2))},
+					Threads: [][]Step{{At(3000 * ms), C(L(1, 1, 1, 0, 10, 0, 2))}}, DrainTo: 16 * sec},
 				// a millisecond-unit hold is granted in the very millisecond in which the sweeper of the slot it falls into
 				// (period 3000 ms = the whole wheel) is ending another hold
 				{Name: "millisecond-grant-vs-slot-sweep", Cfg: cfg, Fine: true, Setup: []Step{C(withEF(L(7, 1, 1, 0, 700, 0, 0), fMilli))},
 					Threads: [][]Step{{At(1800 * ms), C(withEF(L(2, 2, 2, 0, 3000, 0, 0), fMilli))}}, DrainTo: 8 * sec},
-			}, Oracles: []Oracle{oracleHoldEndsOnce, oracleMsHoldExpires, OracleC03, OracleC04Quiescent, OracleC17}, Bound: func(s *EngSpec, q bool) int {
+			}, Oracles: []Oracle{oracleHoldEndsOnce, oracleRenewedAtTick, oracleMsHoldExpires, OracleC03, OracleC04Quiescent, OracleC17}, Bound: func(s *EngSpec, q bool) int {
 				if q {
 					return 2
 				}
